@@ -3,6 +3,7 @@ import DilithiumVerif.Lemmas.Basic
 import DilithiumVerif.Lemmas.IterComplete
 import DilithiumVerif.Lemmas.SignLoop
 import DilithiumVerif.Lemmas.EndToEnd
+import DilithiumVerif.Lemmas.VerifyFips
 /-
   C01 — Every signature the library produces verifies (all sets, all modes).
   Part 1 (loop logic): the signing loop can end only by returning the signature packed by an accepted
@@ -118,5 +119,17 @@ theorem dil_sign_then_verify (p : Params) (hp : p ∈ allParams) (seed : Option 
   unfold dil_verify
   rw [if_neg (by rw [h2]; simp)]
   exact h1'
+
+open DV.VerifyFips in
+/-- **in the specification's terms**: every signature the code returns under a generated key is accepted by the
+    specification's Verify (FIPS 204 Alg. 8 / Dilithium 3.1) — `VerifyFips.IsAccepted` — for the matching public key and
+    message; with `C05.signing_is_spec_function` (the signature is the specification's Sign output) and
+    `C04.keypair_is_spec_function` this is the correctness of the scheme itself on the runs of the code that return -/
+theorem emitted_signature_spec_verifies (p : Params) (hp : p ∈ allParams) (seed : Option (List Nat)) (tape : Tape) (pk sk : List Nat) (tape' : Tape)
+    (hk : keypair p seed tape = .ok (pk, sk, tape'))
+    (fuel : Nat) (msg : List Nat) (randomized : Bool) (tape2 : Tape) (sig : List Nat) (tape3 : Tape)
+    (hs : signature p fuel msg sk randomized tape2 = .ok (some sig, tape3))
+    (hpb : ∀ b ∈ pk, b < 256) (hb : ∀ b ∈ sig, b < 256) : IsAccepted p pk msg sig :=
+  VerifyFips.emitted_signature_spec_verifies p hp seed tape pk sk tape' hk fuel msg randomized tape2 sig tape3 hs hpb hb
 
 end DV.C01
